@@ -338,7 +338,7 @@ def check_region(ctx, sig, o, Q, g, inst):
     tol = TOL * float((o.pmax - o.pmin).max()) + 16 * C.ulp(M)
     gp1, gp2 = np.asarray(g.mesh.region.pmin, float), np.asarray(g.mesh.region.pmax, float)
     ctx.check()
-    if g.mesh.region.ndim != 3 or np.abs(gp1 - (o.ctr - half)).max() > tol or np.abs(gp2 - (o.ctr + half)).max() > tol:
+    if g.mesh.region.ndim != 3 or C.gt(np.abs(gp1 - (o.ctr - half)).max(), tol) or C.gt(np.abs(gp2 - (o.ctr + half)).max(), tol):
         ctx.fail(sig + "/region-not-bounding-box",
                  f"region {gp1.tolist()}..{gp2.tolist()} expected {(o.ctr - half).tolist()}..{(o.ctr + half).tolist()}",
                  instance=inst)
@@ -371,7 +371,7 @@ def check_values(ctx, sig, o, Q, g, inst, want_n=None):
             ref = from_phys(to_phys(ref, o.comp_axis) @ Q.T, o.comp_axis)
         ctx.check(ni)
         d = np.abs(got[interior] - ref)
-        if d.max() > tol:
+        if C.gt(d.max(), tol):
             w = int(np.argmax(d.max(axis=-1)))
             idx = np.argwhere(interior)[w]
             ctx.fail(sig + "/interior-value-not-Q-of-interpolation",
@@ -380,7 +380,7 @@ def check_values(ctx, sig, o, Q, g, inst, want_n=None):
     if no:
         ctx.check(no)
         d = np.abs(got[outside])
-        if d.max() > tol:
+        if C.gt(d.max(), tol):
             w = int(np.argmax(d.max(axis=-1)))
             idx = np.argwhere(outside)[w]
             ctx.fail(sig + "/outside-not-zero",
@@ -397,14 +397,14 @@ def same_field(ctx, sig, a, b, o, inst, what):
     ap = np.concatenate([np.asarray(a.mesh.region.pmin, float), np.asarray(a.mesh.region.pmax, float)])
     bp = np.concatenate([np.asarray(b.mesh.region.pmin, float), np.asarray(b.mesh.region.pmax, float)])
     M = float(max(np.abs(ap).max(), np.abs(bp).max()))
-    if an != bn or np.abs(ap - bp).max() > TOL * scale + 16 * C.ulp(M):
+    if an != bn or C.gt(np.abs(ap - bp).max(), TOL * scale + 16 * C.ulp(M)):
         ctx.fail(sig + "/mesh", f"{what}: n {an} vs {bn}, region {ap.tolist()} vs {bp.tolist()}", instance=inst)
         return False
     if a.nvdim != b.nvdim or a.array.shape != b.array.shape:
         ctx.fail(sig + "/shape", f"{what}: {a.array.shape} vs {b.array.shape}", instance=inst)
         return False
     d = np.abs(np.asarray(a.array, float) - np.asarray(b.array, float))
-    if d.max() > TOL * o.vmax:
+    if C.gt(d.max(), TOL * o.vmax):
         idx = np.unravel_index(int(np.argmax(d)), d.shape)
         ctx.fail(sig + "/values", f"{what}: cell/component {tuple(int(i) for i in idx)}: {a.array[idx]} vs {b.array[idx]}",
                  instance=inst)
@@ -449,11 +449,11 @@ def check_lattice(ctx, sig, o, M, g, inst):
         return False
     gp = np.concatenate([np.asarray(g.mesh.region.pmin, float), np.asarray(g.mesh.region.pmax, float)])
     ep = np.concatenate([p1, p2])
-    if np.abs(gp - ep).max() > TOL * float((o.pmax - o.pmin).max()) + 16 * C.ulp(float(np.abs(ep).max())):
+    if C.gt(np.abs(gp - ep).max(), TOL * float((o.pmax - o.pmin).max()) + 16 * C.ulp(float(np.abs(ep).max()))):
         ctx.fail(sig + "/region", f"region {gp.tolist()} expected {ep.tolist()}", instance=inst)
         return False
     d = np.abs(np.asarray(g.array, float) - arr)
-    if d.max() > TOL * o.vmax:
+    if C.gt(d.max(), TOL * o.vmax):
         idx = np.unravel_index(int(np.argmax(d)), d.shape)
         ctx.fail(sig + "/values-not-lattice-rotation",
                  f"cell/component {tuple(int(i) for i in idx)}: got {g.array[idx]} expected {arr[idx]}", instance=inst)
@@ -706,7 +706,7 @@ def _analytic(ctx, o, kind, Q, g, inst, mesh):
         return
     ctx.check(int(interior.sum()))
     d = np.abs(got - exp)
-    if d.max() > TOL * o.vmax:
+    if C.gt(d.max(), TOL * o.vmax):
         w = int(np.argmax(d.max(axis=-1)))
         ctx.fail("FieldRotator.rotate/" + sig, f"interior target cell {np.argwhere(interior)[w].tolist()}: got "
                  f"{got[w].tolist()} expected {np.asarray(exp)[w].tolist()}", instance=inst)
